@@ -10,6 +10,7 @@ from datetime import datetime, timezone
 from typing import (
     Any,
     Callable,
+    Dict,
     Generic,
     List,
     Mapping,
@@ -99,11 +100,20 @@ class UpnpDevice:
         # pylint: disable=too-many-arguments
         self.requester = requester
         self.device_info = device_info
-        self.services = {service.service_type: service for service in services}
-        self.embedded_devices = {
-            embedded_device.device_type: embedded_device
-            for embedded_device in embedded_devices
-        }
+        # Keyed by type; a further service/device of an already seen type is kept
+        # as well, under "<type>#<service id>" / "<type>#<UDN>".
+        self.services: Dict[str, "UpnpService"] = {}
+        for service in services:
+            key = service.service_type
+            if key in self.services:
+                key = f"{key}#{service.service_id}"
+            self.services[key] = service
+        self.embedded_devices: Dict[str, "UpnpDevice"] = {}
+        for embedded_device in embedded_devices:
+            key = embedded_device.device_type
+            if key in self.embedded_devices:
+                key = f"{key}#{embedded_device.udn}"
+            self.embedded_devices[key] = embedded_device
         self._parent_device: Optional["UpnpDevice"] = None
 
         # bind services to ourselves
